@@ -34,6 +34,7 @@ import (
 
 func init() {
 	vfRegister("VerifC44_file", VerifC44_file)
+	vfRegister("VerifC44_truncHole", VerifC44_truncHole)
 	vfRegister("VerifC44_readdir", VerifC44_readdir)
 	vfRegister("VerifC44_tree", VerifC44_tree)
 }
@@ -450,6 +451,55 @@ func VerifC44_tree() {
 			}
 		}
 		c44compare(ctx, fs, model)
+	}
+	vfReach("end")
+}
+
+// Reopen with O_TRUNC, then write past the new end: the hole reads back as zeros, never as bytes of the old
+// contents (added after seeded change C44-A: truncation that keeps the backing array + a Write that reslices
+// instead of zero-filling the hole). Shape B: write n0 bytes, close, reopen with O_TRUNC (symbolic flag set),
+// optional short write, seek to a symbolic offset within the old length, write 1 byte, read everything back.
+func VerifC44_truncHole() {
+	ctx := context.Background()
+	fs := NewMemFS()
+	f, err := fs.OpenFile(ctx, "/f", os.O_RDWR|os.O_CREATE, 0666)
+	vfAssert(err == nil, "create /f")
+	n0 := vfLen("n0", 1, 4)
+	old := vfBytes("old", n0)
+	for i := range old {
+		vfAssume(old[i] != 0) // make stale bytes distinguishable from hole zeros
+	}
+	_, err = f.Write(old)
+	vfAssert(err == nil, "initial write")
+	f.Close()
+	flag := os.O_RDWR | os.O_TRUNC
+	if vfChoice("wronly", 2) == 1 {
+		flag = os.O_WRONLY | os.O_TRUNC
+	}
+	g, err := fs.OpenFile(ctx, "/f", flag, 0666)
+	vfAssert(err == nil, "reopen with O_TRUNC")
+	fi, err := fs.Stat(ctx, "/f")
+	vfAssert(err == nil && fi.Size() == 0, "O_TRUNC empties the file")
+	off := vfLen("off", 0, n0+1)
+	_, err = g.Seek(int64(off), io.SeekStart)
+	vfAssert(err == nil, "seek")
+	b := vfU8("b")
+	_, err = g.Write([]byte{b})
+	vfAssert(err == nil, "write past the new end")
+	g.Close()
+	h, err := fs.OpenFile(ctx, "/f", os.O_RDONLY, 0)
+	vfAssert(err == nil, "reopen for reading")
+	buf := make([]byte, off+4)
+	got, _ := h.Read(buf)
+	vfAssert(got == off+1, "size is offset+1")
+	ok := true
+	for i := 0; i < off; i++ {
+		ok = vfAnd(ok, buf[i] == 0)
+	}
+	vfAssert(ok, "the hole reads as zeros, not as old contents")
+	vfAssert(buf[off] == b, "written byte")
+	if off > 0 {
+		vfReach("hole-after-truncate")
 	}
 	vfReach("end")
 }
